@@ -8,10 +8,11 @@ forwarding to field_parser::parse_field_value; string interning inserts only whe
 """
 import re
 
-from .. import hirq, wire, mirg
+from .. import hirq, wire, mirg, rules
 from ..rules import norm, ncallee
 
 META = {
+    "quick_configs": ["default", "allfeat"],   # the mmap and parallel access paths only exist with their cargo features on
     "level": "other",
     "technique": "per-variant width tables extracted from match arms (typed HIR, wire widths) compared across four sibling functions + header wire agreement + who-may-call on the shared decoder",
     "claim": "Decides that all nine FieldType variants have one width across size/decode/encode/default tables, that header write order/widths equal header read, that the written field_count follows the validator's counting rule, that all access paths share one decoder, and that string interning is insert-if-absent. Does not compare values or key lookups.",
@@ -90,6 +91,61 @@ def run(ctx):
     R_str = ctx.rule("C17.string-interning-insert-if-absent", "build_string_block adds a string only when it is not yet in the offset map", floor=1)
 
     fns = {norm(f.path): f for f in c.fn_list if f.kind != "Closure" and f.hir}
+
+    # access paths return every record: no element-dropping adapter on the record pipeline
+    R_drop = ctx.rule("C17.access-paths-drop-no-record", "no flatten / filter / filter_map / take / skip / step_by / *_while / chunks_exact-style adapter in the eager, lazy, mmap or parallel record pipelines", floor=6)
+    DROP = re.compile(r"::(flatten|filter_map|filter|take|skip|step_by|take_while|skip_while|map_while|flat_map|chunks_exact|par_chunks_exact|rchunks_exact|array_chunks|find_map)$")
+    control = 0
+    for f in c.fn_list:
+        if "::tests::" in f.path or not f.mir.get("blocks"):
+            continue
+        p_ = norm(f.path)
+        in_scope = bool(re.match(r"wow_cdbc::(parallel|lazy|mmap)::|wow_cdbc::parser::DbcParser::parse_record", p_))
+        hits = [(t["ln"], ncallee(t)) for _bb, t in mirg.iter_calls(f) if DROP.search(ncallee(t) or "") and not t.get("x")]
+        control += len(hits)
+        if not in_scope:
+            continue
+        ctx.saw_fn(f)
+        if hits:
+            ctx.bad(R_drop, "%s|%s" % (re.sub(r"::\{closure#\d+\}", "", p_), hits[0][1].split("::")[-1]), "%s:%d" % (f.file, hits[0][0]), "record pipeline uses `%s`" % hits[0][1].split("::")[-1],
+                    "records (a remainder chunk, unparsed slots, filtered entries) are silently left out: this access path returns fewer records than the others, and keyed lookups miss them")
+        else:
+            ctx.ok(R_drop, {"fn": p_})
+    if control == 0:
+        ctx.bad(R_drop, "control|adapter-recognition", "-", "the adapter pattern matched no call anywhere in wow_cdbc (positive control: RecordSet::create_sorted_key_map uses filter_map)", "the rule could not see a violation if there were one")
+
+    # the writer emits header, records and string block on every success path
+    R_parts = ctx.rule("C17.writer-success-passes-all-parts", "every Ok exit of write_records is dominated by the header writes and passes the record loop head and the string-block write", floor=1)
+    wr_ = fns.get("wow_cdbc::writer::DbcWriter::write_records")
+    if wr_ is None:
+        ctx.bad(R_parts, "write_records|missing", "-", "function not found", "anchor gone")
+    else:
+        cfg = mirg.Cfg(wr_)
+        du = mirg.DefUse(wr_)
+        blocks = wr_.mir["blocks"]
+        sb_local = next((i for i, (_t, nm) in enumerate(wr_.mir["locals"]) if nm == "string_block"), None)
+        sb_blocks = []
+        for bb, t in mirg.iter_calls(wr_):
+            if (ncallee(t) or "").endswith("::write_all") and sb_local is not None:
+                anc = set()
+                for a in t["a"][1:]:
+                    if mirg.op_local(a) is not None:
+                        anc |= du.slice_back(mirg.op_local(a), depth=4)[0]
+                if sb_local in anc:
+                    sb_blocks.append(bb)
+        oks = [bb for bb, kind, _p in rules.success_exit_blocks(wr_) if kind == "ok"]
+        if not sb_blocks:
+            ctx.bad(R_parts, "write_records|no-string-block-write", wr_.where, "no write_all(&string_block) found", "the string block announced in the header is never written")
+        elif not oks:
+            ctx.bad(R_parts, "write_records|no-ok-exit", wr_.where, "no Ok exit recognised", "anchor shape changed")
+        else:
+            ok_, wit = cfg.must_pass(set(sb_blocks), oks)
+            if ok_:
+                ctx.ok(R_parts, {"fn": "write_records", "ok_exits": len(oks), "string_block_write_blocks": sb_blocks})
+            else:
+                ln = next((st[3] for st in blocks[wit]["s"] if st[0] == "="), 0)
+                ctx.bad(R_parts, "write_records|ok-bypasses-string-block", "%s:%d" % (wr_.file, ln), "an Ok exit (bb%d) is reachable without writing the string block" % wit,
+                        "the header announces a string block (at least the mandatory NUL) that the file does not contain: the written size is not header + records + string block and re-parsing fails or loses strings")
     tables = []
     for path, mode in (("wow_cdbc::schema::FieldType::size", "r"), ("wow_cdbc::field_parser::parse_field_value", "r"),
                        ("wow_cdbc::writer::DbcWriter::write_value", "w"), ("wow_cdbc::writer::DbcWriter::write_record", "w")):
